@@ -21,19 +21,22 @@ MODELLED_NOT_VERIFIED = [
     "rooting/weight comments) is a hand-written Lean model tied to the code by per-case comparison (ops escape, tokens, write, parse)",
     "C02: the NEXUS block grammar (TAXA/TREES/TRANSLATE statements) and NeXML (xml.etree parsing, attribute quoting, id maps) are not "
     "modelled: they are exercised by the real round-trip oracle only",
-    "C02: float <-> text is Python's repr/float (lengths are opaque strings in the model); str.lower() of labels is modelled by ASCII "
-    "case folding (the generators never produce non-ASCII case pairs); metadata comments/annotations are outside the statement",
+    "C02: float <-> text is Python's repr/float (lengths are opaque strings in the model); case folding is a parameter of the model "
+    "(theorems hold for every folding); the driver is handed str.lower() of the characters that occur (one-character images only: the "
+    "generators never emit characters such as U+0130 or a final sigma); metadata comments/annotations are outside the statement",
 ]
 EXPLANATION = ("Theorems (Props/C02.lean, all about the definitions drv_c02 runs): special_protected and tokenizer_tables by `decide` over the "
-               "tables regenerated from the source; token_roundtrip(_kind): next(escape(l) ++ d :: rest) = l for every admissible label, consistent "
-               "option triple and captured follow character; statement_tokens: tokenizing the whole written statement gives back the emitted token "
-               "kinds and attaches the rooting/weight comments to the first token; newick_tokens_roundtrip_partial: the recursive-descent parser "
-               "inverts the writer callbacks (hypothesis LL: every leaf writes a tag or a length - anonymous leaves are covered by enumeration and "
-               "the oracle only); newick_roundtrip: parseText(writeTree t) = [decode(toRT t)] over the namespace of its taxon labels; carried_tree: "
-               "decode(toRT t) = t under the default label options; rooting_roundtrip. NEXUS block grammar and NeXML: real round-trip oracle only.")
+               "tables regenerated from the source; tokenizer_fuel_suffices (the tokenizer model is total on every text); token_roundtrip(_kind) "
+               "and token_roundtrip_any (both protect classes; captured, whitespace or end-of-text follower): next(escape(l) ++ follower) = l for "
+               "every admissible label and consistent option triple; statement_tokens: tokenizing the whole written statement gives back the "
+               "emitted token kinds with the rooting/weight comments on the first token; newick_tokens_roundtrip: the recursive-descent parser "
+               "inverts the writer callbacks for EVERY tree (anonymous leaves included); newick_roundtrip and newick_roundtrip_tree: "
+               "parseText(writeTree t) = [t] with its rooting, over the namespace of its taxon labels, for every case folding; rooting_roundtrip, "
+               "weight_absent. Not proved (enumeration + correspondence + oracle): several statements per text, pre-filled namespaces, weights, "
+               "NEXUS block grammar, NeXML.")
 
 SCHEMAS = ("newick", "nexus", "nexml")
-NONASCII = u"éßñλЖ"          # e-acute, sharp s, n-tilde, lambda, Cyrillic ZHE (no case pairs among them)
+NONASCII = u"éÉßñλЖж"        # includes the case pairs e-acute / E-acute and ZHE / zhe (each has a one-character str.lower())
 PRINTABLE = [chr(i) for i in range(0x20, 0x7f)] + ["\t"] + list(NONASCII)
 TABLE_CHARS = list("(){}[],;:=\\\"'`+-*/<>&_ \t")
 PLAIN = list("abcXYZ019")
@@ -173,7 +176,8 @@ def gen_case(rng, schema=None, max_leaves=8, force=None):
         if schema == "nexus" and rng.random() < 0.35:
             wopts["translate_tree_taxa"] = True
     case = {"op": "roundtrip", "schema": schema, "labels": labels, "trees": trees, "wopts": wopts, "ropts": ropts,
-            "via": "tree" if (ntrees == 1 and rng.random() < 0.4) else "treelist"}
+            "via": "tree" if (ntrees == 1 and rng.random() < 0.4) else "treelist",
+            "into": "source" if rng.random() < 0.2 else "fresh"}
     case.update({k: v for k, v in force.items() if k != "labels"})
     return case
 
@@ -239,8 +243,18 @@ def oracle(case, tl2):
         out.extend(probs[:3])
         if t["rooted"] is not None and t2.is_rooted is not t["rooted"]:
             out.append(("rooting", "tree %d: is_rooted %r read back as %r" % (k, t["rooted"], t2.is_rooted)))
+        if (schema != "nexml" and case["wopts"].get("store_tree_weights") and case["ropts"].get("store_tree_weights")
+                and t.get("weight") is not None and (t2.weight is None or exact(t2.weight) != exact(t["weight"]))):
+            out.append(("weight", "tree %d: weight %r read back as %r with store_tree_weights on both sides" % (k, t["weight"], t2.weight)))
+        members = {id(x) for x in tl2.taxon_namespace}
+        if t2.taxon_namespace is not tl2.taxon_namespace or any(
+                nd.taxon is not None and id(nd.taxon) not in members for nd in tu.walk(t2.seed_node)):
+            out.append(("taxon-namespace", "tree %d: a node's Taxon object is not a member of the re-read namespace" % k))
     got = [x.label for x in tl2.taxon_namespace]
-    if schema == "newick":
+    if case.get("into") == "source":
+        if got != case["labels"]:
+            out.append(("namespace", "read into the source namespace %r, which then lists %r" % (case["labels"], got)))
+    elif schema == "newick":
         used = set()
         for t in case["trees"]:
             used.update(nd[0] for nd in spec_nodes(t["spec"]) if nd[0] is not None)
@@ -296,9 +310,23 @@ def write_line(wopts, t, token_of=None):
                                   enc_spec(t["spec"], token_of))
 
 
+def case_map(*texts):
+    """str.lower on the characters that occur, as the model's case-folding parameter (one-character images only;
+    the generators never emit characters whose lower() is longer or context dependent)"""
+    chars = sorted({c for t in texts for c in t if c.lower() != c and len(c.lower()) == 1})
+    return ",".join(hex6(x) for c in chars for x in (c, c.lower())) or "-"
+
+
 def parse_line(ropts, text, ns=(), tokmap=(), numbers=False):
-    return "parse %s %d %s %s %s" % (ropts_bits(ropts), 1 if numbers else 0, ",".join(hex6(x) for x in ns) or "-",
-                                     ",".join(hex6(x) for p in tokmap for x in p) or "-", hex6(text))
+    return "parse %s %s %d %s %s %s" % (ropts_bits(ropts), case_map(text, *ns), 1 if numbers else 0, ",".join(hex6(x) for x in ns) or "-",
+                                        ",".join(hex6(x) for p in tokmap for x in p) or "-", hex6(text))
+
+
+def rt_line(wopts, ropts, t):
+    w = t.get("weight")
+    labs = [x for nd in spec_nodes(t["spec"]) for x in (nd[0], nd[1]) if x]
+    return "rt %s %s %s %d %s %s" % (wopts_bits(wopts), ropts_bits(ropts), case_map(*labs), rooted_code(t["rooted"]),
+                                     hex6(None if w is None else "{}".format(w)), enc_spec(t["spec"]))
 
 
 def _weight_value(expr):
@@ -355,7 +383,7 @@ def canon_impl(tl, stw):
 # ------------------------------------------------------------------ the round-trip case: implementation, oracle, model
 def case_key(case):
     return [case.get("op"), case.get("schema"), case.get("labels"), case.get("trees"), case.get("wopts"), case.get("ropts"), case.get("text"),
-            case.get("via")]
+            case.get("via"), case.get("into")]
 
 
 def nontrivial(case):
@@ -390,11 +418,14 @@ def run_roundtrip(ctx, dendropy, case, pending):
     tl2 = None
     try:
         with time_limit(20):
+            kw = dict(ropts)
+            if case.get("into") == "source":
+                kw["taxon_namespace"] = tl.taxon_namespace
             if single:
-                t2 = dendropy.Tree.get(data=text, schema=schema, **ropts)
+                t2 = dendropy.Tree.get(data=text, schema=schema, **kw)
                 tl2 = dendropy.TreeList([t2], taxon_namespace=t2.taxon_namespace)
             else:
-                tl2 = dendropy.TreeList.get(data=text, schema=schema, **ropts)
+                tl2 = dendropy.TreeList.get(data=text, schema=schema, **kw)
     except Timeout:
         ctx.fail("hang", "re-reading the %s text did not finish" % schema, case)
     except Exception as e:
@@ -402,6 +433,11 @@ def run_roundtrip(ctx, dendropy, case, pending):
             schema, type(e).__name__, str(e)[:160], text[-300:]), case)
     if tl2 is not None:
         probs = oracle(case, tl2)
+        if not probs and case.get("into") == "source":
+            src = {id(x) for x in tl.taxon_namespace}
+            if tl2.taxon_namespace is not tl.taxon_namespace or any(
+                    nd.taxon is not None and id(nd.taxon) not in src for t2_ in tl2 for nd in tu.walk(t2_.seed_node)):
+                probs = [("namespace-identity", "read into the source namespace, but the trees refer to other Taxon objects / another namespace")]
         for kind, what in probs[:1]:
             ctx.fail(kind, "%s round trip (%s / %s): %s" % (schema, wopts, ropts, what), case)
     # ---- model
@@ -410,7 +446,11 @@ def run_roundtrip(ctx, dendropy, case, pending):
         for k, t in enumerate(case["trees"]):
             pending.append((write_line(wopts, t), ("write", case, k), None))
         pending.append((None, ("write-join", case, len(case["trees"])), text))
-        pending.append((parse_line(ropts, text), ("parse", case, stw), "ERR" if tl2 is None else canon_impl(tl2, stw)))
+        ns0 = case["labels"] if case.get("into") == "source" else ()
+        pending.append((parse_line(ropts, text, ns=ns0), ("parse", case, stw), "ERR" if tl2 is None else canon_impl(tl2, stw)))
+        if len(case["trees"]) == 1 and not ns0:
+            # the composite the theorem newick_roundtrip speaks about: model write ; model read = what the library re-read
+            pending.append((rt_line(wopts, ropts, case["trees"][0]), ("rt", case, stw), "ERR" if tl2 is None else canon_impl(tl2, stw)))
     elif schema == "nexus":
         lines = text.split("\n")
         stmts = [l.split(" = ", 1)[1] for l in lines if l.startswith("    TREE ") and " = " in l]
@@ -461,7 +501,7 @@ def flush(ctx, pending):
         if op == "write-stmt":
             if (unhex6(m) or "") != impl:
                 ctx.disagree("write-stmt", case, impl, unhex6(m))
-        elif op in ("parse", "parse-nexus", "parse-text"):
+        elif op in ("parse", "parse-nexus", "parse-text", "rt"):
             got = canon_model(m, extra)
             if got != impl:
                 ctx.disagree(op, case, json.dumps(impl)[:400], json.dumps(got)[:400] + " <- " + m[:200])
@@ -540,7 +580,7 @@ def run_tokens(ctx, dendropy, text, pu, pending):
 
 
 STMT_ALPHA = ["(", ")", ",", ":", ";", "A", "b", "C", "a", "1.5", "2", "'x y'", "'('", "','", "';'", "[&R]", "[&U]", "[&W 2]", "[c]", " ",
-              "\n", "_", "'", "a_b"]
+              "\n", "_", "'", "a_b", u"É", u"é", u"Ж", u"ж", "a", "A"]
 
 
 def run_parse_text(ctx, dendropy, text, ropts, pending):
@@ -556,9 +596,15 @@ def run_parse_text(ctx, dendropy, text, ropts, pending):
         impl = "Timeout"
     except RecursionError:
         impl = "RecursionError"
-    except Exception:
-        impl = "ERR"
+    except Exception as e:
+        # a refusal is a parse error; any other exception class is shown as such (the model only ever refuses)
+        impl = "ERR" if is_refusal(dendropy, e) else "Internal(%s)" % type(e).__name__
     pending.append((parse_line(ropts, text), ("parse-text", case, stw), impl))
+
+
+def is_refusal(dendropy, e):
+    from dendropy.utility import error
+    return isinstance(e, (error.DataParseError, ValueError)) and not isinstance(e, (UnicodeError,))
 
 
 def gen_ropts(rng):
